@@ -24,12 +24,12 @@ import (
 
 // action-kind tables: the same compiler, different emphasis per property
 var kindsByProp = map[string][]string{
-	"C12": {"sstore", "sstore", "sstore", "sload", "tstore", "tstore", "log", "log", "mem", "transfer", "transfer", "selfdestruct", "etx", "convert", "extcall", "lockup", "lockup", "precompile",
-		"call", "call", "call", "call", "call", "create", "create", "revert", "revert", "invalid", "return"},
+	"C12": {"sstore", "sstore", "sstore", "sload", "tstore", "tstore", "log", "log", "mem", "transfer", "transfer", "selfdestruct", "selfdestruct", "etx", "convert", "extcall", "lockup", "lockup", "precompile",
+		"call", "call", "call", "call", "call", "call", "call", "call", "call", "create", "create", "create", "revert", "revert", "invalid", "return"},
 	"C05": {"sstore", "log", "transfer", "selfdestruct", "etx", "etx", "etx", "etx", "etx", "convert", "convert", "convert", "extcall", "extcall", "extcall", "lockup", "lockup", "lockup",
-		"call", "call", "call", "create", "revert", "revert", "invalid", "return", "mem"},
+		"call", "call", "call", "call", "call", "call", "create", "create", "revert", "revert", "invalid", "return", "mem"},
 	"C02": {"sstore", "sstore", "transfer", "transfer", "transfer", "transfer", "selfdestruct", "selfdestruct", "selfdestruct", "etx", "etx", "convert", "extcall", "extcall", "lockup", "precompile",
-		"call", "call", "call", "call", "create", "create", "create", "revert", "invalid", "return", "mem", "tstore"},
+		"call", "call", "call", "call", "call", "call", "call", "create", "create", "create", "revert", "invalid", "return", "mem", "tstore"},
 }
 
 var (
@@ -335,7 +335,7 @@ func txLabel(c *caseCtx, p *pass) string {
 			cause = "none"
 		}
 	}
-	return fmt.Sprintf("tx=%s cause=%s", c.txKind, cause)
+	return fmt.Sprintf("tx=%s cause=%s inside=%s", c.txKind, cause, inside(p.tc.top))
 }
 
 // plainDigest is the account part of the world digest (no EVM attached).
